@@ -115,6 +115,7 @@ impl NumSem {
             _ => return Err(Stop::Unspec("UnknownBinary")),
         };
         if op == "div" { super::f64sem::free_zero(&self.flags, &[y], v, false)?; }
+        if op == "mul" || op == "div" { super::f64sem::subnormal_after_inexact(&self.flags, x, y, v)?; }
         if op == "pow" { super::f64sem::free_zero(&self.flags, &[x], v, false)?; }
         Ok(either(w, v))
     }
